@@ -325,18 +325,13 @@ class ArMember(object):
             self.__fp = open(self.__fname, "rb")  # pylint: disable = consider-using-with
         self.__fp.seek(self.__cur)
 
-        if size is not None:
-            buf = self.__fp.readline(size)
-            self.__cur = self.__fp.tell()
-            if self.__cur > self.__end:
-                return b''
-
-            return buf
-
-        buf = self.__fp.readline()
+        # never read beyond the end of the member: the line may continue in
+        # the next header (or the member may not end on a newline at all)
+        limit = max(self.__end - self.__cur, 0)
+        if size is not None and 0 <= size < limit:
+            limit = size
+        buf = self.__fp.readline(limit)
         self.__cur = self.__fp.tell()
-        if self.__cur > self.__end:
-            return b''
         return buf
 
     def readlines(self, sizehint=0):
